@@ -1,5 +1,6 @@
 # C09 - key-to-slot routing: get_hash_tag, generate_slot, SlotMapData::get (DESIGN 4.9)
 import re
+import vlib
 
 def build(U):
     S = U.src('src/common/utils.rs')
@@ -49,10 +50,21 @@ def build(U):
     get.replace('closure-spec', '.and_then(|opt| *opt)', '.and_then(|opt: &Option<usize>| -> (o: Option<usize>) ensures o == *opt { *opt })', count=1)
     get.replace('closure-spec', '.map(|s| s.as_str())', '.map(|s: &String| -> (o: &str) ensures o@ == s@ { s.as_str() })', count=1)
     U.add_fn(get)
+    # SlotMapData::new: the table maps slot s to address i only if one of addrs[i]'s ranges contains s, and to
+    # nothing only if no range of any address contains s
+    new = L.fn('new', within=r'impl SlotMapData\b')
+    new.r1_logging()
+    vlib.d8_continue(new)
+    new.replace('R2', 'for _ in 0..SLOT_NUM {', 'for _i in 0..SLOT_NUM {', count=1)
+    new.replace('D9b', 'for (addr, slots) in slot_map.into_iter() {',
+                'let verif_entries = shim_into_vec(slot_map);\n        for (addr, slots) in verif_entries.into_iter() {', count=1)
+    new.apply_overlay('slot_map_new')
+    U.add_fn(new)
     U.add("}\n} // verus!\nfn main() {}\n")
     U.trust('crc16::State::<XMODEM>::calculate == fold of the bitwise CRC-16/XMODEM step (per-byte commuting square proved by Kani c09_crc_square for every register value and byte; the fold over the crate\'s three-line loop is assumed)',
             '[u8]::iter().position / [u8]::get(range) by their std documentation (shim_position_u8, shim_get_from, shim_get_range)',
-            's@.len() <= usize::MAX for slices')
+            's@.len() <= usize::MAX for slices',
+            'HashMap::into_iter yields every entry exactly once in unspecified order (shim_into_vec, D9b); obeys_key_model::<String>()')
 
 MUST_FAIL = '''
 proof fn must_fail_c09_tag_spec_not_identity() ensures forall|k: Seq<u8>| spec_hash_tag(k) == k {
